@@ -185,7 +185,9 @@ def step (st : WSt) (ws : List String) : Option (WSt × String) :=
     | some s =>
       let m := kv rest
       let viaChn : Bool := match rest with | t :: _ => t.startsWith "chn:" | [] => false
-      let c0 : Ctx := { w := st.w, failK := st.failK, crashK := st.crashK }
+      -- the fault plan is armed for client requests only: a timer or a dropped connection leaves it for the next request
+      let ev : Bool := op = "fg" ∨ op = "drop"
+      let c0 : Ctx := if ev then { w := st.w } else { w := st.w, failK := st.failK, crashK := st.crashK }
       let c : Option Ctx :=
         if s.out ∧ (parseAs m).isNone ∧ op ≠ "fg" ∧ op ≠ "drop" then
           some (c0.loggedOut sid (if op = "newgrp" then (if kvGet m "chan" = "1" then "?nch" else "?new") else rest.headD "") (op = "note")) else
@@ -277,7 +279,7 @@ def step (st : WSt) (ws : List String) : Option (WSt × String) :=
         let stOut := { st with w := c.w }
         let line := render st.w stOut c { actor := sid, viaChn := viaChn, op := op, what := (rest.getD 1 "") }
         -- the crash snapshot, if one was taken during this op, is what an immediately following `restart` restores
-        some ({ w := c.w, failK := 0, crashK := 0, snap := c.snap }, line)
+        some (if ev then { st with w := c.w, snap := none } else { w := c.w, failK := 0, crashK := 0, snap := c.snap }, line)
   | _ => none
 
 end Tinode.Driver.World
